@@ -245,6 +245,25 @@ impl Property for C11 {
             o.fail(format!("C11/keyid/{}", spec.key.kind()), format!("key_id = {}", got_id), format!("hex(sha256(olpc(description))) = {}", want_id));
         }
 
+        // (3b) the same key declared with other key-id hash-algorithm lists (absent, empty, one entry): the id is that of its own description
+        {
+            use crate::model::keyid::{describe, reference_key_id_with_list};
+            let d = describe(&spec.key);
+            for list in [None, Some(vec![]), Some(vec!["sha256"]), Some(vec!["sha512", "sha256"])] {
+                let want = reference_key_id_with_list(&d, list.as_deref());
+                let mut doc = json!({"keytype": d.keytype, "scheme": d.scheme, "keyval": {"public": d.public}});
+                if let Some(l) = &list {
+                    doc["keyid_hash_algorithms"] = json!(l);
+                }
+                if let Ok(k) = serde_json::from_value::<in_toto::crypto::PublicKey>(doc) {
+                    let got = serde_json::to_value(k.key_id()).unwrap().as_str().unwrap_or("").to_string();
+                    if got != want {
+                        o.fail(format!("C11/keyid/list-{}", list.as_ref().map(|l| l.len().to_string()).unwrap_or_else(|| "absent".into())), format!("key_id = {} for keyid_hash_algorithms {:?}", got, list), format!("hex(sha256(olpc(description))) = {}", want));
+                    }
+                }
+            }
+        }
+
         // (1) reference-made signature must verify here
         let sig = ring_sign(&spec.key, &reference);
         let block = json!({"signatures": [{"keyid": got_id, "sig": hex(&sig)}], "signed": tree});
